@@ -40,7 +40,7 @@ def shards(tier, seed):
     return out
 
 
-def run_child(spec, timeout=600):
+def run_child(spec, timeout=1200):
     from vf import env as venv
     f = tempfile.NamedTemporaryFile("w", suffix=".json", prefix="vf-c13-", delete=False)
     json.dump(spec, f); f.close()
@@ -265,13 +265,20 @@ def run_conc(ctx, trials, inject):
             orders.append(first + [i for i in o if i not in set(first)])
         seed = rng.randrange(10**9)
         ref, err = run_child({"mode": "seq", "queries": Q2, "orders": [list(range(len(Q2)))], "seed": seed})
-        res, err2 = run_child({"mode": "conc", "queries": Q2, "orders": orders, "inject": inject, "seed": seed, "p": rng.choice([0.2, 0.4, 0.6]), "modules": MODULES, "watchdog_s": 240})
+        res, err2 = run_child({"mode": "conc", "queries": Q2, "orders": orders, "inject": inject, "seed": seed, "p": rng.choice([0.2, 0.4, 0.6]), "modules": MODULES, "watchdog_s": 900})
         ctx.counters["concurrent_trials"] += 1
         if ref is None or res is None:
             ctx.inconc(f"concurrent trial child failed: {err or err2}"); continue
         absorb_shadow(ctx, res, f"concurrent trial seed {seed} ({T} threads)")
         if res.get("hung"):
-            ctx.V("C13:concurrent-hang", f"threads {res['hung']} of a {T}-thread trial (seed {seed}) did not finish", {"kind": "conc", "seed": seed, "threads": T}); continue
+            # decided structurally, never on the clock: a deadlock is a set of unfinished threads that all sit on a lock acquisition inside the library
+            import re as _re
+            fr = res.get("hung_frames") or []
+            if fr and all(f and _re.search(r"with .*lock|\.acquire\(", f[3], _re.I) for f in fr):
+                ctx.V("C13:concurrent-deadlock", f"threads {res['hung']} of a {T}-thread trial (seed {seed}) are all blocked on lock acquisitions: {fr}", {"kind": "conc", "seed": seed, "threads": T, "inject": inject})
+            else:
+                ctx.inconc(f"{T}-thread trial (seed {seed}) still running at the wall watchdog, threads not blocked on locks ({fr[:2]}): not judged")
+            continue
         refans = {i: (("raised", exc) if exc else ("ok", ans)) for i, ans, ident, exc in ref["threads"][0]}
         idents = {}
         for t, out in enumerate(res["threads"]):
